@@ -34,9 +34,15 @@ claimed = {
  "C11": ("constant-reachability for the Downgrade sentinel, loop-coverage and lookup-before-store facts in transformReqs, must-facts for the no-op case (go/ssa)",
          "Decides the contract with mvs.Downgrade (Previous answers \"none\", never the empty root version: found and fixed F5; root returned unchanged by Upgrade/Previous), that every existing name of a retained project is kept and only new projects get fresh names, that a fresh name is stored only after a failed lookup of that name, and that requesting the selected version is a no-op.",
          "Build-list relations after tidy/upgrade/downgrade and query resolution are behavioural (library + VCS) and not decided."),
+ "C12": ("sanitiser-on-every-flow taint slices in target(), must-facts on the cleaned path in the sanitiser, shape extraction of the record path, key-origin check of the label-keyed tables (go/ssa)",
+         "Decides the confinement clause and the identity plumbing only: every sources/generates path reaches the file system through repoSourcePath/sourceLabel, which cleans first and rejects '..'/'../' on the cleaned value it returns; record paths are work/<kind>s/<one URL-escaped package+name component>; Project.targets/modules are keyed only by (*Label).String().",
+         "NOT decided: print/parse round trip, canonicity and panic-freedom of label.Parse/Clean for all strings (behavioural / needs relational bounds reasoning)."),
  "C13": ("effect confinement: must-facts on the dry-run flag for every effectful call site, mutator reachability through the static in-module closure of the up-to-date checks, constant-result check of evaluate implementations",
          "Decides that the body and every record write are on the not-dry-run edge, that the checks that run in dry runs reach no file-system/process mutator, that the dry branch marks changed+succeeded as every real successful evaluation does, that the flag is assigned on every path of RunOptions.apply, and that evaluating is reported before the dry-run test independent of it.",
          "Trusts go/ssa and the mutator table. Effects of user Starlark code are confined by skipping the body, which is what is checked."),
+ "C14": ("derivation agreement (same path function for mark, read and write), unfiltered-loop facts, constant agreement with the writers' names, mutator reachability from GC (go/ssa)",
+         "Decides that GC marks targetInfoPath(label) for every entry of Project.targets without filter, that records are read from and renamed onto that same derivation, that index.json and temp are marked under the names their writers use, that marking walks up the parents, and that the only mutation is RemoveAll of unmarked entries of a walk rooted at Project.work.",
+         "Equality of later builds' executed sets with/without GC is behavioural and not decided; a stale index (gc loads by index) is outside this check."),
  "C15": ("panic-site typing over the static call closure of Decode, recover-handler typestate, loop-progress classification, non-nil push sources, guard-interval bounds lint on record consumers (go/ssa)",
          "Decides that every explicit panic reachable from Decode carries an error, that Decode/Encode install (first thing, unconditionally) a handler converting every error-valued panic including runtime.Error into the named result, that each decoder loop consumes input or has a bounded induction variable, that pushed/returned values are non-nil, and that the record consumers outside the recover scope have no unguarded len(x)-k/constant index, unchecked assertion or reachable panic (found and fixed F9).",
          "Trusts go/ssa and go.starlark.net; memory exhaustion and 32-bit length overflow are outside the property. Crash-freedom for all byte strings is not itself proven."),
